@@ -1830,7 +1830,29 @@ func TxLeak(w *load.World, c *core.Collector) {
 				escapes := false
 				for _, r := range *tx.Referrers() {
 					switch x := r.(type) {
-					case *ssa.Return, *ssa.Store, *ssa.MakeInterface, *ssa.MakeClosure, *ssa.Phi:
+					case *ssa.Store:
+						// put into a wrapper the function builds itself and only lends to a callback (a bucket
+						// manager around the transaction): the function still owns the transaction
+						lent := false
+						if fa, ok := x.Addr.(*ssa.FieldAddr); ok && x.Val == tx {
+							if al, ok := fa.X.(*ssa.Alloc); ok && ssax.InModuleType(al.Type()) {
+								lent = true
+								for _, ar := range *al.Referrers() {
+									switch y := ar.(type) {
+									case *ssa.Return:
+										lent = false
+									case *ssa.Store:
+										if y.Val == ssa.Value(al) {
+											lent = false
+										}
+									}
+								}
+							}
+						}
+						if !lent {
+							escapes = true
+						}
+					case *ssa.Return, *ssa.MakeInterface, *ssa.MakeClosure, *ssa.Phi:
 						escapes = true
 					case ssa.CallInstruction:
 						if x.Common().StaticCallee() != nil && len(x.Common().Args) > 0 && x.Common().Args[0] == tx && strings.HasPrefix(x.Common().StaticCallee().String(), "(*go.etcd.io/bbolt.Tx).") {
@@ -1900,7 +1922,7 @@ func TxLeak(w *load.World, c *core.Collector) {
 	}
 	c.Count("hand_opened_transactions", n)
 	emitLint(c, "TXLEAK", "transaction-left-open", seen, per, func(p string) []string {
-		return []string{"C12", "C08"}
+		return []string{"C12", "C08", "C09"}
 	})
 }
 
